@@ -356,3 +356,27 @@ def r11_5(ctx):
                         "(an ICMP error would be answered)", body=b, bb=s, path=bad[0][1])
             else:
                 ctx.ok((fn, rep), sample=dict(fn=fn, guard='EchoRequest arm'))
+
+
+@rule('R11.11', ['C11'], floor=1, clause='a loopback destination is no exemption from the destination filter for packets that arrive on a device: process_ipv6 reaches protocol processing only for an address the interface owns or a group it has joined (::1 counts when it is one of the interface\'s addresses, as 127.0.0.1 does for IPv4)')
+def r11_11(ctx):
+    F = ctx.F
+    b = ctx.method(IFI, 'process_ipv6')
+    sites = _sites(ctx, b, ['process_nxt_hdr'])
+    ctx.need(sites, "process_nxt_hdr in process_ipv6")
+    dleaf = [f"F:{V6R}.dst_addr"]
+    sleaf = [f"F:{V6R}.src_addr"]
+    own = p_any(*[p_call(mpred(F, adt, meth), True, dleaf, forbid=sleaf) for (adt, meth) in [(IFI, 'has_ip_addr'), (IFI, 'has_multicast_group')]])
+    ctx.need(guard_edges(F, b, own) or pass_edges(F, b, own), "has_ip_addr / has_multicast_group tests in process_ipv6")
+    lo = p_call(mpred(F, '__ext__', 'is_loopback'), True, dleaf, forbid=sleaf)
+    for s, n in sites:
+        bad = unguarded(F, b, [s], own)
+        if not bad:
+            ctx.ok(('process_ipv6', n, 'owned destination'), sample=dict(fn='process_ipv6', site=n, guard='has_ip_addr | has_multicast_group'))
+            continue
+        via_lo = not unguarded(F, b, [s], p_any(own, lo))
+        if via_lo:
+            ctx.bad("process_ipv6|loopback-destination-accepted-unowned", "process_ipv6 accepts a packet for ::1 from any device although the interface does not own ::1: a TCP SYN to [::1]:port arriving on "
+                    "Ethernet / IEEE 802.15.4 moves a listening socket to SYN-RECEIVED (and is answered from ::1)", body=b, bb=s, path=bad[0][1])
+        else:
+            ctx.bad(f"process_ipv6|{n}|unowned-destination", f"{n} reachable from process_ipv6 for a destination that is neither an address of the interface nor a joined group", body=b, bb=s, path=bad[0][1])
